@@ -131,7 +131,9 @@ def lexAux : Nat → List Char → Option (List Tok)
       let body := if c = '-' then cs else c :: cs
       let r := takeWhileC Char.isDigit body
       let v : Int := if c = '-' then - (digitsVal r.1 : Int) else (digitsVal r.1 : Int)
-      (lexAux f r.2).map (.int v :: ·)
+      -- a unary minus binds weaker than a `[]` suffix: `-1[]` is outside the token model
+      if c == '-' && (match r.2 with | '[' :: _ => true | _ => false) then none
+      else (lexAux f r.2).map (.int v :: ·)
     else if isNameStart c then
       let r := takeWhileC isNameCont (c :: cs)
       let t : Tok := if r.1 = "true".toList then .tt else if r.1 = "false".toList then .ff else .name r.1
